@@ -295,8 +295,12 @@ def check (ps : PState) (evLine : String) (obs : List String) (fault : Option St
           | none => fs := fs ++ [s!"C08 UP F-SEID {hexN up} of the Establishment Response does not address a session"]
           | some ds => if toString ds.cp != toString (hexD (lookD m "cp" "0")) then
               fs := fs ++ [s!"C08 session {hexN up} does not carry the control-plane SEID of the request"]
-    -- C06: a retransmission is not executed again and is answered with the cached bytes
-    if isDup then
+    -- C06: a retransmission is not executed again and is answered with the cached bytes.  Whether this request IS a
+    -- retransmission is decided on the specification side too (an answered request of that peer and sequence number
+    -- whose retention has not expired), not only by the implementation's own receive table
+    let specDup := typ == "recv" && kind ∈ ["hb", "assoc", "est", "mod", "del", "other"] &&
+      (ps.cache.find? (·.1 == (peer, seq))).isSome
+    if isDup || specDup then
       if !dps.isEmpty then fs := fs ++ [s!"C06 retransmitted request p{peer}-{seq} reached the data plane again"]
       if !sessUnchanged [] || d.nodes != prev.nodes || d.dp != prev.dp then fs := fs ++ [s!"C06 retransmitted request p{peer}-{seq} changed session state"]
       let cached := (ps.cache.find? (·.1 == (peer, seq))).map (·.2)
@@ -440,6 +444,9 @@ def check (ps : PState) (evLine : String) (obs : List String) (fault : Option St
               if !us.contains u && c.urrs.contains u && c.refs u == 0 then expectQ := expectQ ++ [u]
         -- faults injected into the data plane make "the PDR exists" itself uncertain: the predicate is evaluated on fault-free cases
         let anyErr := dps.any fun x => !x.2.2.2.2
+        -- a data-plane refusal (possible without injected faults: duplicate ids and the like) leaves request and
+        -- bookkeeping in a state the spec side does not follow: the session is left out from here on
+        if anyErr then c := { c with tainted := true }
         -- whatever one makes of the request itself (the data plane refuses the duplicate), the implementation's own two
         -- tables must agree afterwards: the count of a URR is the number of PDRs whose recorded list names it
         if wasClean && !c0.tainted && ps.faultPct == 0 then
@@ -467,13 +474,18 @@ def check (ps : PState) (evLine : String) (obs : List String) (fault : Option St
               if mine.any fun r => r.trig / Gen.report.USAR_TRIG_TERMR % 2 == 0 then
                 fs := fs ++ [s!"C12 the final report of URR {u} (session {hexN seid}) is not marked as a termination report"]
         tbl := (seid, c) :: tbl.filter (·.1 != seid)
-    -- the bookkeeping itself: a URR counts as referenced by precisely the PDRs whose current URR list names it
+    -- the bookkeeping itself: a URR counts as referenced by precisely the PDRs whose current URR list names it,
+    -- and a PDR's recorded list is what Create / Update PDR last gave it
     if ps.faultPct == 0 && !isDup then
       for (up, c) in tbl do
         if !c.tainted then
           match d.live up with
           | none => pure ()
           | some ds =>
+            let norm (l : List (Nat × List Nat)) : List (Nat × List Nat) :=
+              (l.map fun p => (p.1, (p.2.toArray.qsort (· < ·)).toList)).toArray.qsort (fun a b => a.1 < b.1) |>.toList
+            if norm ds.pdrs != norm c.pdrs then
+              fs := fs ++ [s!"C12 session {hexN up}: the PDRs' recorded URR lists are {reprStr (norm ds.pdrs)}; Create / Update / Remove PDR so far give {reprStr (norm c.pdrs)}"]
             for u in ds.urrs do
               let n := (ds.pdrs.filter fun p => p.2.contains u.id).length
               if u.ref != n then
